@@ -1,7 +1,296 @@
-/- line-protocol handler for model "access" (stub until its model is built) -/
+/- line-protocol handler for model "access" (C03): the building blocks of the access
+   decision (array_match_*, mod_access_check, mod_extforward) and the whole request
+   pipeline; same ops and canonical outputs as harness/inproc/h_access.c -/
+import LtVerif.Model.Access
+import LtVerif.Model.Extforward
+import LtVerif.Model.H1Parse
 namespace Driver
+open LtVerif LtVerif.B LtVerif.Access LtVerif.Extforward
 
+namespace AccessOps
+
+def optIdx : Option Nat → String
+  | some i => toString i
+  | none => "-1"
+
+def hexList (ts : List String) : Option (List Bytes) := ts.mapM ofHex
+
+def splitC (c : Char) (s : String) : List String := s.splitOn (String.singleton c)
+
+/-- "~" = unset, "." = empty list, else hex items joined by ',' -/
+def optList (s : String) : Option (Option (List Bytes)) :=
+  if s = "~" then some none
+  else if s = "." then some (some [])
+  else (hexList (splitC ',' s)).map some
+
+/-- "-" | key=value,key=value -/
+def fwdEntries (s : String) : Option (List (Bytes × Bytes)) :=
+  if s = "-" then some []
+  else (splitC ',' s).mapM fun e =>
+    match splitC '=' e with
+    | [k, v] => (match ofHex k, ofHex v with | some k, some v => some (k, v) | _, _ => none)
+    | _ => none
+
+/-- http_header_request_append(): repeated fields are joined with ", " -/
+def addField (hs : List (Bytes × Bytes)) (n v : Bytes) : List (Bytes × Bytes) :=
+  if v.isEmpty then hs else
+  let n := n.map toLower
+  if hs.any (·.1 = n) then hs.map fun (k, o) => if k = n then (k, o ++ [44, 32] ++ v) else (k, o)
+  else hs ++ [(n, v)]
+
+/-- "-" | name:value;name:value -/
+def fields (s : String) : Option (List (Bytes × Bytes)) :=
+  if s = "-" then some []
+  else (splitC ';' s).mapM fun e =>
+    match splitC ':' e with
+    | [k, v] => (match ofHex k, ofHex v with | some k, some v => some (k, v) | _, _ => none)
+    | _ => none
+
+def addrStr : Option SockAddr → String
+  | some (.v4 b) => "4 " ++ toHex b
+  | some (.v6 b) => "6 " ++ toHex b
+  | _ => "none"
+
+/-- extforward.headers: "-" = default -/
+def hdrNames (s : String) : Option (List Bytes) :=
+  if s = "-" then some defaultHeaders
+  else (hexList (splitC ',' s)).map fun l => l.map fun n => n.map toLower
+
+/-! ### the request pipeline -/
+
+def fsOf (s : String) : Option Fs :=
+  if s = "-" then some (fun p => if p.isEmpty then some .dir else none) else
+  match (splitC ',' s).mapM (fun e =>
+      match splitC ':' e with
+      | [k, h] =>
+        (match ofHex h with
+         | some p => if k = "d" then some (p, Kind.dir) else if k = "f" then some (p, Kind.file) else none
+         | none => none)
+      | _ => none) with
+  | none => none
+  | some ents =>
+    -- (every directory on the way to an entry exists, as `mkdir -p` makes it)
+    let dirs : List Bytes := ents.flatMap fun (p, _) => (slashIdx p).map fun i => p.take i
+    some fun q =>
+      match ents.find? (fun e => e.1 = q) with
+      | some e => some e.2
+      | none => if q.isEmpty || dirs.contains q then some .dir else none
+
+def strOpOf : String → Option StrOp
+  | "e" => some .eq | "n" => some .ne | "p" => some .prefix_ | "s" => some .suffix
+  | _ => none
+
+def isInfix (n h : Bytes) : Bool :=
+  (List.range (h.length + 1)).any fun i => (h.drop i).take n.length == n
+
+/-- the regular expressions the generator writes: "(?i)lit$", "(?i)^lit", "lit" -/
+def reOf (kind : String) (lit : Bytes) : Option (Bytes → Bool) :=
+  if kind = "cs" then some fun u => sufMatch true lit u
+  else if kind = "cp" then some fun u => preMatch true lit u
+  else if kind = "sub" then some fun u => isInfix lit u
+  else none
+
+def scopeOf (s : String) : Option Scope :=
+  if s = "G" then some .global else
+  match splitC ':' s with
+  | [t, h] =>
+    (match t.toList, ofHex h with
+     | ['U', o], some b => (strOpOf (String.singleton o)).map fun op => Scope.url op b
+     | ['H', o], some b => (strOpOf (String.singleton o)).map fun op => Scope.host op b
+     | _, _ => none)
+  | [t, k, h] =>
+    (match t.toList, ofHex h with
+     | ['R', n], some b => (reOf k b).map fun m => Scope.urlRe (n == '1') m
+     | _, _ => none)
+  | [t, fam, a, bits] =>
+    (match t.toList, ofHex a, bits.toNat? with
+     | ['I', n], some ab, some nb =>
+       if fam = "4" && ab.length = 4 then some (Scope.ip (n == '1') (.v4 ab) nb)
+       else if fam = "6" && ab.length = 16 then some (Scope.ip (n == '1') (.v6 ab) nb)
+       else none
+     | _, _, _ => none)
+  | _ => none
+
+/-- scope|allow|deny|auth|exclude|forwarder|headers -/
+def blockOf (s : String) : Option Block :=
+  match splitC '|' s with
+  | [sc, al, dn, au, ex, fw, fh] =>
+    match scopeOf sc, optList al, optList dn, optList au, optList ex, optList fh with
+    | some sc, some al, some dn, some au, some ex, some fh =>
+      let fw? : Option (Option Forwarder) :=
+        if fw = "~" then some none
+        else match fwdEntries fw with
+          | some es => (parseForwarder es).map some
+          | none => none
+      fw?.map fun fw =>
+        { scope := sc, allow := al, deny := dn, auth := au, exclude := ex, forwarder := fw,
+          fwdHeaders := fh.map fun l => l.map fun n => n.map toLower }
+    | _, _, _, _, _, _ => none
+  | _ => none
+
+def goodCred : Bytes := ofString "Basic YWxpY2U6d29uZGVybGFuZA=="
+
+def respStr (r : Resp) (parsed : Bool) : String :=
+  toString r.status ++ "," ++ (if parsed then toHex r.uri else "-") ++ "," ++
+  (if parsed then toHex r.pathinfo else "-") ++ "," ++ toHex r.addr ++ "," ++
+  (match r.file with | some f => toHex f | none => "-")
+
+def isTokLower (n : Bytes) : Bool := !n.isEmpty && n.all fun c => isLower c || c = 45
+
+/-- HTTP/2 request below the framing layer: pseudo-headers and fields through
+    http_request_parse_header(), then http_request_headers_process_h2() -/
+def h2Head (o : Opts) (method path authority : Bytes) (flds : List (Bytes × Bytes)) : ReqOut :=
+  if method.isEmpty then .err 400
+  else if !methodTable.contains method then .err 501
+  else if path.isEmpty then .err 400
+  else if authority.length ≥ 1024 then .err 400
+  else
+    let r0 : PReq := { version := 2, keepAlive := false, method := method, target := path }
+    let r0 := if authority.isEmpty then r0 else setHost r0 authority
+    -- http_request_validate_pseudohdrs()
+    if method = ofString "CONNECT" then .err 400 else
+    if path.head? ≠ some slash && !(path = [42] && method = ofString "OPTIONS") then .err 400 else
+    let badTarget : Bool :=
+      if o.headerStrict then (if o.ctrlsReject then false else path.any uriCharInvalidStrict)
+      else path.any fun c => c = 0 || c = cr || c = lf
+    if badTarget then .err 400 else
+    -- fields (the generator only writes lower-case token names)
+    let step (acc : Except Nat PReq) (f : Bytes × Bytes) : Except Nat PReq :=
+      match acc with
+      | .error e => .error e
+      | .ok r =>
+        let (n, v) := f
+        if v.isEmpty then .ok r
+        else if (if o.headerStrict then v.any lineCharInvalidStrict
+                 else v.any fun c => c = 0 || c = cr || c = lf) then .error 400
+        else
+          let v := dropTrailingWs (v.dropWhile isWs)
+          if v.isEmpty then .ok r
+          else if !isTokLower n then .error 400
+          else if n = ofString "te" && !eqIcase v (ofString "trailers") then .error 400
+          else singleHeader r n v
+    match flds.foldl step (.ok r0) with
+    | .error e => .err e
+    | .ok r1 =>
+      match parsePost o 80 r1 with
+      | .err e => .err e
+      | .skipV6 => .skipV6
+      | .ok r t => .ok r t
+
+def reqOf (s : Server) (tok : String) : Option String :=
+  let run (peer : Bytes) (ro : ReqOut) : Option String :=
+    match ptonAny peer with
+    | none => none
+    | some pa =>
+      match ro with
+      | .ok r _ =>
+        if r.method ≠ ofString "GET" then none else
+        let q : Req := { target := r.target, host := r.host.getD [], peer := peer, peerAddr := pa,
+                         hdrs := r.headers,
+                         cred := r.headers.any fun h => h.1 = ofString "authorization" && h.2 = goodCred }
+        some (respStr (serve false gaiNumeric s q) true)
+      | .err e => some (respStr { status := e, uri := [], pathinfo := [], addr := peer, file := none } false)
+      | _ => none
+  match splitC ',' tok with
+  | ["1", peer, blk] =>
+    match ofHex peer, ofHex blk with
+    | some p, some b => run p (parseHead s.opts 8192 80 b)
+    | _, _ => none
+  | ["2", peer, m, path, auth, fl] =>
+    match ofHex peer, ofHex m, ofHex path, ofHex auth, fields fl with
+    | some p, some m, some path, some a, some fl => run p (h2Head s.opts m path a fl)
+    | _, _, _, _, _ => none
+  | _ => none
+
+def srvLine (toks : List String) : String :=
+  match toks with
+  | _conf :: dr :: fl :: lc :: fs :: rest =>
+    let blocks := rest.takeWhile (· ≠ "/")
+    let reqs := (rest.dropWhile (· ≠ "/")).drop 1
+    match ofHex dr, fl.toNat?, fsOf fs, blocks.mapM blockOf with
+    | some dr, some f, some fs, some bs =>
+      if rest.all (· ≠ "/") then "bad-op" else
+      let s : Server := { cfg := bs, opts := ⟨f⟩, lc := lc = "1", docroot := dr, fs := fs }
+      match reqs.mapM (reqOf s) with
+      | some outs => String.intercalate " " ((toString f ++ " " ++ (if s.lc then "1" else "0")) :: outs)
+      | none => "bad-op"
+    | _, _, _, none => "config-error"
+    | _, _, _, _ => "bad-op"
+  | _ => "bad-op"
+
+end AccessOps
+
+open AccessOps in
 def accessLine : List String → String
+  | "sfx" :: nc :: p :: vs =>
+    match ofHex p, hexList vs with
+    | some p, some vs => optIdx (matchValueSuffix (nc == "1") vs p)
+    | _, _ => "bad-op"
+  | "vpfx" :: nc :: p :: vs =>
+    match ofHex p, hexList vs with
+    | some p, some vs => optIdx (matchValuePrefix (nc == "1") vs p)
+    | _, _ => "bad-op"
+  | "kpfx" :: nc :: p :: vs =>
+    match ofHex p, hexList vs with
+    | some p, some vs => optIdx (matchKeyPrefix (nc == "1") vs p)
+    | _, _ => "bad-op"
+  | "ksfx" :: nc :: p :: vs =>
+    match ofHex p, hexList vs with
+    | some p, some vs => optIdx (matchKeySuffix (nc == "1") vs p)
+    | _, _ => "bad-op"
+  | "poe" :: p :: vs =>
+    match ofHex p, hexList vs with
+    | some p, some vs => optIdx (matchPathOrExt vs p)
+    | _, _ => "bad-op"
+  | "chk" :: lc :: p :: na :: vs =>
+    match ofHex p, na.toNat?, hexList vs with
+    | some p, some n, some vs =>
+      if n > vs.length then "bad-op"
+      else if accessCheck (vs.take n) (vs.drop n) p (lc == "1") then "1" else "0"
+    | _, _, _ => "bad-op"
+  | ["lcs", h] =>
+    match ofHex h with
+    | some b => toHex (b.map toLower)
+    | none => "bad-op"
+  | ["pton", h] =>
+    match ofHex h with
+    | some b => addrStr (ptonAny b)
+    | none => "bad-op"
+  | ["gai", h] =>
+    match ofHex h with
+    | some b => addrStr (gaiNumeric b)
+    | none => "bad-op"
+  | ["xfa", h] =>
+    match ofHex h with
+    | some b =>
+      let l := extractForwardArray b
+      if l.isEmpty then "-" else String.intercalate "," (l.map toHex)
+    | none => "bad-op"
+  | ["trust", fw, ip] =>
+    match fwdEntries fw, ofHex ip with
+    | some es, some ip =>
+      if fw = "-" then "no-forwarder" else
+      (match parseForwarder es with
+       | none => "config-error"
+       | some f => if isProxyTrusted f ip then "1" else "0")
+    | _, _ => "bad-op"
+  | ["xff", fw, hn, peer, fl] =>
+    match fwdEntries fw, hdrNames hn, ofHex peer, fields fl with
+    | some es, some names, some peer, some fl =>
+      let f? : Option (Option Forwarder) := if fw = "-" then some none else (parseForwarder es).map some
+      (match f? with
+       | none => "config-error"
+       | some f =>
+         match ptonAny peer with
+         | none => "bad-peer"
+         | some _ =>
+           let hs := fl.foldl (fun acc kv => addField acc kv.1 kv.2) []
+           match remoteAddr false gaiNumeric { forwarder := f, headers := names } peer hs with
+           | .bad => "1 400 ="
+           | .unchanged => "0 0 ="
+           | .set a _ => "0 0 " ++ toHex a)
+    | _, _, _, _ => "bad-op"
+  | "srv" :: rest => srvLine rest
   | _ => "bad-op"
 
 end Driver
